@@ -2,7 +2,9 @@
    A case is a construction sequence over a type universe together with what the
    implementation did: for every Add* / Compile call whether it returned nil, the types
    GraphInfo reported for the passthrough nodes after the final Compile, and the outcome
-   class of every run that was made (emitted dynamic values, input, outcome).
+   class of every run that was made (emitted dynamic values, input, outcome); one case per
+   run carries the whole tables of checkAssignable and assertType over the universe, read
+   through the hook.
    Error messages are not compared (class only).
 
    Go's map iteration order is not visible to the harness; the model is evaluated under
@@ -19,7 +21,12 @@ Record ccase : Type := {
   c_ops : list op;
   c_oks : list bool;                              (* observed, one per op *)
   c_infer : list (key * option ty);               (* observed passthrough types (empty if not compiled) *)
-  c_runs : list (list (key * dyn) * dyn * outcome) (* emit table, input, observed outcome *)
+  c_runs : list (list (key * dyn) * dyn * outcome); (* emit table, input, observed outcome *)
+  (* hook-level observations (compose/verif_c07.go), only in the "lattice" case of a run:
+     checkAssignable(input, arg) for every pair of types of the universe (None = nil
+     reflect.Type) and assertType[T](v) for every dynamic value and every type *)
+  c_lat : list (option ty * option ty * assignable);
+  c_asrt : list (dyn * ty * bool)
 }.
 
 Definition MkCase := Build_ccase.
@@ -47,7 +54,9 @@ Definition agrees (orcs : nat -> nat -> nat -> list key) (c : ccase) : bool :=
   let '(st, oks) := run_ops u orcs 0 (init_graph (c_in c) (c_out c) (c_st c)) (c_ops c) in
   bools_eqb oks (c_oks c)
   && forallb (fun p => oty_eqb (in_ty st (fst p)) (snd p) && oty_eqb (out_ty st (fst p)) (snd p)) (c_infer c)
-  && forallb (fun r => match r with (em, d, o) => outcome_eqb (run u (assert_type u) em st d) o end) (c_runs c).
+  && forallb (fun r => match r with (em, d, o) => outcome_eqb (run u (assert_type u) em st d) o end) (c_runs c)
+  && forallb (fun r => match r with (a, b, x) => assignable_eqb (check_assignable u a b) x end) (c_lat c)
+  && forallb (fun r => match r with (d, t, x) => Bool.eqb (assert_type u d t) x end) (c_asrt c).
 
 Definition bad (c : ccase) : bool :=
   negb (agrees (fun _ _ _ => []) c || agrees (fun _ _ _ => descending) c).
